@@ -141,7 +141,7 @@ def parse_state_block(block):
     return out
 
 
-def parse_dump(path, limit=None, only=None):
+def parse_dump(path, limit=None, only=None, stride=1):
     """Yield dict per state from a TLC -dump file (only blocks containing `only`, if given)."""
     with open(path) as f:
         text = f.read()
@@ -150,6 +150,8 @@ def parse_dump(path, limit=None, only=None):
         if limit is not None and j >= limit:
             return
         end = hdrs[j + 1].start() if j + 1 < len(hdrs) else len(text)
+        if stride > 1 and j % stride:
+            continue            # skipped without parsing
         blk = text[mo.end():end]
         if only is not None and only not in blk:
             continue
